@@ -185,3 +185,159 @@ def run_elem(case):
     except Exception as ex:
         rec["out"] = type(ex).__name__
     return rec
+
+
+# ------------------------------------------------------------------ files, folders, selector, dataset views
+def _line_text(line, nm):
+    if line["k"] != "ranking":
+        return line["text"]
+    op, cl = ("{", "}") if line.get("brace", 1) else ("[", "]")
+    sep = line.get("sep", ", ")
+    body = sep.join(op + sep.join(str(nm[x]) for x in b) + cl for b in line["r"])
+    txt = line.get("prefix", "") + "[" + body + "]"
+    if line["r"] == []:
+        txt = line.get("prefix", "") + "[[]]"
+    cont = line.get("cont")
+    if cont is not None and 0 < cont < len(txt):
+        txt = txt[:cont] + "\\\n" + txt[cont:]
+    return txt
+
+
+def _write_lines(path, lines, nm, final_newline=True):
+    with open(path, "w", encoding="utf-8") as f:
+        f.write("\n".join(_line_text(l, nm) for l in lines) + ("\n" if final_newline else ""))
+
+
+def _abs_ds(ds, inv):
+    return [_abs_ranking(r, inv) for r in ds.rankings]
+
+
+def run_fileg(case):
+    rec = dict(case)
+    rec.update(kind="fileg", out="", read=[], name=0)
+    D = _impl["Dataset"]
+    path = os.path.join(core.workdir("tmpfiles"), f"fg_{os.getpid()}.txt")
+    try:
+        nm, inv = _names(case["naming"], case["ne"])
+        _write_lines(path, case["lines"], nm, case.get("final_newline", 1) == 1)
+    except Exception as ex:
+        rec["out"] = "setup-failed"
+        rec["err"] = repr(ex)[:200]
+        return rec
+    try:
+        how = case["reader"]
+        if how == "from_file":
+            ds = D.from_file(path)
+        elif how == "get_dataset_from_file":
+            ds = D.get_dataset_from_file(path)
+        else:
+            cons = _impl["Consensus"].get_consensus_from_file(path)
+            ds = D(list(cons.consensus_rankings), name=os.path.basename(path))
+        rec["read"] = _abs_ds(ds, inv)
+        rec["name"] = 1 if ds.name == os.path.basename(path) else 0
+        rec["out"] = "ok"
+    except Exception as ex:
+        rec["out"] = type(ex).__name__
+    finally:
+        if os.path.exists(path):
+            os.unlink(path)
+    return rec
+
+
+def run_folder(case):
+    import shutil
+    rec = dict(case)
+    rec.update(kind="folder", out="", read=[])
+    D = _impl["Dataset"]
+    folder = os.path.join(core.workdir("tmpfiles"), f"folder_{os.getpid()}")
+    try:
+        nm, inv = _names(case["naming"], case["ne"])
+        shutil.rmtree(folder, ignore_errors=True)
+        os.makedirs(folder)
+        for f in case["files"]:          # created in the order of the case, read in the order of the names
+            _write_lines(os.path.join(folder, f"d{f['key']:03d}.txt"), f["lines"], nm)
+    except Exception as ex:
+        rec["out"] = "setup-failed"
+        rec["err"] = repr(ex)[:200]
+        return rec
+    try:
+        dss = D.get_datasets_from_folder(folder if case.get("slash", 0) == 0 else folder + os.path.sep)
+        for ds in dss:
+            nme = str(ds.name)
+            key = int(nme[1:4]) if len(nme) == 8 and nme[0] == "d" and nme.endswith(".txt") and nme[1:4].isdigit() else -1
+            rec["read"].append({"key": key, "rks": _abs_ds(ds, inv)})
+        rec["out"] = "ok"
+    except Exception as ex:
+        rec["out"] = type(ex).__name__
+    finally:
+        shutil.rmtree(folder, ignore_errors=True)
+    return rec
+
+
+def run_select(case):
+    from corankco.dataset import DatasetSelector
+    rec = dict(case)
+    rec.update(kind="select", out="", got=[], views=0)
+    D = _impl["Dataset"]
+    try:
+        nm, inv = _names(case["naming"], case["ne"])
+        dss = [D.from_raw_list([_raw(r, nm) for r in d]) for d in case["Ds"]]
+    except Exception as ex:
+        rec["out"] = "setup-failed"
+        rec["err"] = repr(ex)[:200]
+        return rec
+    try:
+        b = case["b"]
+        inf = lambda v: float("inf") if v >= 1000000 else v          # noqa: E731
+        kw = {}
+        # a bound left at its default value is not passed at all
+        if b["emin"] != 0 or case["explicit"]:
+            kw["nb_elem_min"] = b["emin"]
+        if b["emax"] < 1000000 or case["explicit"]:
+            kw["nb_elem_max"] = inf(b["emax"])
+        if b["rmin"] != 0 or case["explicit"]:
+            kw["nb_rankings_min"] = b["rmin"]
+        if b["rmax"] < 1000000 or case["explicit"]:
+            kw["nb_rankings_max"] = inf(b["rmax"])
+        sel = DatasetSelector(**kw)
+        res = sel.select_datasets(dss)
+        got = []
+        for d in res:
+            ks = [k for k, x in enumerate(dss) if x is d]
+            got.append(ks[0] + 1 if ks else 0)
+        rec["got"] = got
+        rec["views"] = 1 if (sel.nb_elem_min == b["emin"] and sel.nb_elem_max == inf(b["emax"]) and
+                             sel.nb_rankings_min == b["rmin"] and sel.nb_rankings_max == inf(b["rmax"])) else 0
+        rec["out"] = "ok"
+    except Exception as ex:
+        rec["out"] = type(ex).__name__
+    return rec
+
+
+def run_dviews(case):
+    rec = dict(case)
+    n = case["ne"]
+    rec.update(kind="dviews", out="", contains=["?"] * n, containsE=["?"] * n, iter=[], items=[], name=0)
+    D, E = _impl["Dataset"], _impl["Element"]
+    try:
+        nm, inv = _names(case["naming"], n)
+        ds = core.build_dataset([[sorted(nm[x] for x in b) for b in r] for r in case["D"]], case.get("how", 0), name="views")
+        typed = {str(e.value): e.value for e in ds.universe}
+    except Exception as ex:
+        rec["out"] = "setup-failed"
+        rec["err"] = repr(ex)[:200]
+        return rec
+    try:
+        for x in range(1, n + 1):
+            v = typed.get(str(nm[x]), nm[x])
+            a, b = ds.contains_element(v), ds.contains_element(E(v))
+            rec["contains"][x - 1] = "T" if a is True else "F" if a is False else "notbool"
+            rec["containsE"][x - 1] = "T" if b is True else "F" if b is False else "notbool"
+        rec["iter"] = [_abs_ranking(r, inv) for r in ds]
+        rec["items"] = [_abs_ranking(ds[k], inv) for k in range(ds.nb_rankings)]
+        ds.name = "renamed"
+        rec["name"] = 1 if ds.name == "renamed" else 0
+        rec["out"] = "ok"
+    except Exception as ex:
+        rec["out"] = type(ex).__name__
+    return rec
